@@ -7,6 +7,7 @@ CONSTANTS
   MaxPos = 3
   Extra = 1
   MaxKw = 2
+  NSim = 0
   KindMode = "pat"
   Dump = TRUE
 INVARIANT RefIsDeclarative
